@@ -32,6 +32,7 @@ use wire::{Profile, WireEngine};
 fn engine_by_name(name: &str) -> Option<Box<dyn Engine>> {
     let e: Box<dyn Engine> = match name {
         "wire-c04" => Box::new(WireEngine { profile: Profile::C04, enumerate: false }),
+        "wire-c05" => Box::new(WireEngine { profile: Profile::C05, enumerate: false }),
         "wire-c06" => Box::new(WireEngine { profile: Profile::C06, enumerate: false }),
         "wire-c06-enum" => Box::new(WireEngine { profile: Profile::C06, enumerate: true }),
         "wire-c07" => Box::new(WireEngine { profile: Profile::C07, enumerate: false }),
@@ -75,7 +76,7 @@ fn main() {
             // (engine, runs quick, runs thorough)
             let plan: Vec<(&str, u64, u64)> = match prop.as_str() {
                 "C01" => vec![("pipe-c01", 100_000, 5_000_000)],
-                "C05" => vec![("pipe-c05", 100_000, 5_000_000)],
+                "C05" => vec![("pipe-c05", 100_000, 5_000_000), ("wire-c05", 60_000, 2_000_000)],
                 "C04" => vec![("wire-c04", 150_000, 6_000_000)],
                 "C20" => vec![("gen-c20", 160, 6_000)],
                 "C06" => vec![("wire-c06", 150_000, 4_000_000), ("wire-c06-enum", 2_000, 60_000)],
@@ -127,7 +128,7 @@ fn main() {
                         // the enumeration engine's coverage rides along under its own key
                         let v = r.evidence["violations"].as_i64().unwrap_or(0) + m["violations"].as_i64().unwrap_or(0);
                         m["violations"] = Value::from(v);
-                        m["coverage"]["fault_enumeration"] = r.evidence["coverage"].clone();
+                        m["coverage"][if ename.ends_with("-enum") { "fault_enumeration" } else { "http_surface" }] = r.evidence["coverage"].clone();
                         let mut a: Vec<Value> = m["assumptions"].as_array().cloned().unwrap_or_default();
                         for x in r.evidence["assumptions"].as_array().cloned().unwrap_or_default() {
                             if !a.contains(&x) {
